@@ -28,15 +28,11 @@ theorem toM_inj {K : Type} {m n : Nat} {A B : Mat K m n} (h : toM A = toM B) : A
   Matrix.of.injective h
 
 section
-variable {K : Type} [Ring K] [StarRing K] {m k n : Nat}
+variable {K : Type} [Ring K] {m k n : Nat}
 
 theorem toM_matMul (A : Mat K m k) (B : Mat K k n) : toM (matMul A B) = toM A * toM B := by
   ext i j
   simp [matMul, sumFin_eq, Matrix.mul_apply]
-
-theorem toM_cT (A : Mat K m n) : toM (cT A) = (toM A)ᴴ := by
-  ext i j
-  simp [cT, Conj.conj, conjTranspose_apply]
 
 theorem toM_eye : toM (eye : Mat K n n) = 1 := by
   ext i j
@@ -53,6 +49,15 @@ theorem toM_smul (c : K) (A : Mat K m n) : toM (smul c A) = c • toM A := by
 
 theorem toM_diagM (d : Fin n → K) : toM (diagM d) = Matrix.diagonal d := by
   ext i j; simp [diagM, Matrix.diagonal_apply]
+
+end
+
+section
+variable {K : Type} [Ring K] [StarRing K] {m k n : Nat}
+
+theorem toM_cT (A : Mat K m n) : toM (cT A) = (toM A)ᴴ := by
+  ext i j
+  simp [cT, Conj.conj, conjTranspose_apply]
 
 theorem toM_gram (A : Mat K m k) : toM (gram A) = (toM A)ᴴ * toM A := by
   simp only [gram, toM_matMul, toM_cT]
